@@ -28,7 +28,7 @@ ANCHORS = [
     ("tangelo/linq/circuit.py", "trim_qubits,reindex_qubits,get_entangled_indices,split,stack", "split / trim / reindex / stack"),
     ("tangelo/linq/helpers/circuits/clifford_circuits.py", "decompose_gate_to_cliffords", "Clifford decomposition tables"),
 ]
-REQUIRED = {"inverse": 100, "merge_rotations": 100, "remove_redundant_gates": 100, "remove_small_rotations": 100, "simplify": 100, "split_stack": 50, "trim_qubits": 50, "reindex_qubits": 25, "copy_add_mul": 100, "gate_equality": 200, "clifford_decomposition": 100, "input_unchanged": 300}
+REQUIRED = {"live_observations_total": 5, "inverse": 100, "merge_rotations": 100, "remove_redundant_gates": 100, "remove_small_rotations": 100, "simplify": 100, "split_stack": 50, "trim_qubits": 50, "reindex_qubits": 25, "copy_add_mul": 100, "gate_equality": 200, "clifford_decomposition": 100, "input_unchanged": 300}
 BUDGET = {"quick": 240, "thorough": 2400}
 TOL = 1e-9
 
@@ -40,6 +40,7 @@ def cases(tier, seed):
     out += [{"sub": "clifford", "kmax": 12 if tier == "quick" else 64}]
     out += [{"sub": "reindex", "i": i} for i in range(64 if tier == "quick" else 800)]
     out += [{"sub": "gaptrim", "i": i} for i in range(96 if tier == "quick" else 2000)]
+    out.append({"sub": "repo_tests", "tier": tier})
     return out
 
 
@@ -389,5 +390,13 @@ def run_clifford(case, ctx):
                 ctx.ev("clifford_decomposition")
 
 
+def run_repo_tests(case, ctx):
+    """The repository's own tests as an additional workload: every observed call is compared with the reference model (vlib.livemon)."""
+    from vlib.harness import repo_tests_case
+    repo_tests_case(case, ctx, ['tangelo/linq/tests/test_circuits.py'],
+                    ['tangelo/linq/tests/test_circuits.py', 'tangelo/algorithms/projective/tests/test_iqpe.py'],
+                    only=('pass_keeps_unitary_',), semantic=('C09',))
+
+
 def run_case(case, ctx):
-    {"circ": run_circ, "eq": run_eq, "clifford": run_clifford, "reindex": run_reindex, "gaptrim": run_gaptrim}[case["sub"]](case, ctx)
+    {"circ": run_circ, "eq": run_eq, "clifford": run_clifford, "reindex": run_reindex, "gaptrim": run_gaptrim, "repo_tests": run_repo_tests}[case["sub"]](case, ctx)
